@@ -70,9 +70,11 @@ type sumRec struct {
 }
 
 type acc struct {
-	w   *pool.W
-	sum sumRec
-	byK map[string]*failRec
+	stop bool
+	seen int
+	w    *pool.W
+	sum  sumRec
+	byK  map[string]*failRec
 }
 
 func newAcc(w *pool.W, fam string) *acc {
@@ -81,6 +83,14 @@ func newAcc(w *pool.W, fam string) *acc {
 
 // one runs a case (after announcing it) and folds the verdict into the shard summary.
 func (a *acc) one(id string, fam string, mode int, src string, run bool, note string) {
+	if a.stop {
+		return
+	}
+	if a.seen++; a.seen%512 == 0 && aborted() {
+		a.stop = true
+		a.sum.Outcomes["shard-cut-short-after-abort"]++
+		return
+	}
 	if !a.w.Item(id) {
 		return
 	}
